@@ -162,4 +162,15 @@ def toyProc (k : Nat) (input : Bytes) (cap : Nat) (full : Bool) : Nat × Nat × 
 
 def toyCodec : Codec Nat := ⟨toyProc⟩
 
+/-- A second codec for the harness (`pass_process` in harness/h_c12.c): passes the bytes through unchanged, at most 5
+per call (half of the input when more than 64 bytes are offered), stops early when the output space runs out
+(`bufferFull`), counts its calls in `k` (mod 256), reports `end_` when flushing and the input is used up.  It lets a
+real tar archive be read through the transforming istream. -/
+def passProc (k : Nat) (input : Bytes) (cap : Nat) (full : Bool) : Nat × Nat × Bytes × XRes :=
+  let m := if input.length > 64 then (input.length + 1) / 2 else if input.length > 5 then 5 else input.length
+  let n := if cap < m then cap else m
+  ((k + 1) % 256, n, input.take n, if n < m then .bufferFull else if full ∧ n = input.length then .end_ else .ok)
+
+def passCodec : Codec Nat := ⟨passProc⟩
+
 end Sqfs.IoLoops
